@@ -146,6 +146,20 @@ type ReplayFile struct {
 	Shrink    interface{} `json:"shrink,omitempty"`
 	ExitCode  int         `json:"exit_code,omitempty"`
 	Output    []string    `json:"output,omitempty"`
+	// History names the runs the worker process had executed before this one (same seed and tier:
+	// runs Start, Start+Stride, ... below Run). A run starts by putting every piece of process-wide
+	// state the harness knows of into a canonical condition, so ordinarily they do not matter. When
+	// NeedsHistory is set they do: the violation (of C15, whose subject is what earlier transforms
+	// of the process leave behind) showed only after those runs, and the replay executes them first,
+	// in a fresh process, exactly as the worker did.
+	History      *HistorySpec `json:"process_history,omitempty"`
+	NeedsHistory bool         `json:"needs_process_history,omitempty"`
+}
+
+// HistorySpec: the run indices Start, Start+Stride, ... < the replay file's Run.
+type HistorySpec struct {
+	Start  int `json:"start"`
+	Stride int `json:"stride"`
 }
 
 func WriteReplay(rf *ReplayFile) (string, error) {
